@@ -16,6 +16,10 @@ type binaryStreamPProfProtoDec struct {
 }
 
 func ns(timestamp uint64) uint64 {
+	if timestamp == 0 {
+		// zero never reaches the nanosecond magnitude by scaling
+		return 0
+	}
 	for timestamp < 1000000000000000000 {
 		timestamp *= 10
 	}
